@@ -337,8 +337,65 @@ func Run(tier string) {
 	}
 	sizesSweep(run)
 	byteSweep(run)
+	splitSweep(run)
 	oracle(run, rand.New(rand.NewSource(seed)))
 	run.Finish()
+}
+
+// splitSweep: the last body line (60, 56, 44 or a full 64 columns, alone or after a full line) cut by line breaks at every
+// choice of up to four 4-aligned positions (LF; CRLF for a stripe): the pieces are short lines that are not last, so the
+// text must be refused, however the pieces add up (e.g. five 12-column lines are 65 bytes, the size of a full line).
+func splitSweep(run *vk.Run) {
+	const begin, end = "-----BEGIN AGE ENCRYPTED FILE-----\n", "-----END AGE ENCRYPTED FILE-----\n"
+	data := make([]byte, 96)
+	for i := range data {
+		data[i] = byte(i*37 + 11)
+	}
+	full := base64.StdEncoding.EncodeToString(data[:48])
+	n := 0
+	for _, cols := range []int{60, 56, 44, 64} {
+		last := base64.StdEncoding.EncodeToString(data[48 : 48+cols/4*3])
+		var pos []int
+		for p := 4; p < cols; p += 4 {
+			pos = append(pos, p)
+		}
+		var rec func(start int, chosen []int)
+		emit := func(chosen []int) {
+			for _, prefix := range []string{"", full + "\n"} {
+				for _, br := range []string{"\n", "\r\n"} {
+					if br == "\r\n" && (len(chosen)+chosen[0])%5 != 0 {
+						continue
+					}
+					var b strings.Builder
+					prev := 0
+					for _, c := range chosen {
+						b.WriteString(last[prev:c])
+						b.WriteString(br)
+						prev = c
+					}
+					b.WriteString(last[prev:])
+					in := []byte(begin + prefix + b.String() + "\n" + end)
+					// no tolerance makes this text canonical: if it is accepted, re-armoring cannot give it back
+					CheckRead(run, in, in, nil, fmt.Sprintf("split:%d:%v:%q", cols, chosen, br), rd.Kinds[:2])
+					n++
+				}
+			}
+		}
+		rec = func(start int, chosen []int) {
+			if len(chosen) > 0 {
+				emit(chosen)
+			}
+			if len(chosen) == 4 {
+				return
+			}
+			for i := start; i < len(pos); i++ {
+				rec(i+1, append(append([]int{}, chosen...), pos[i]))
+			}
+		}
+		rec(0, nil)
+	}
+	run.Distinct("split-sweep")
+	run.Add("split_sweep_texts", n)
 }
 
 // byteSweep: every byte value at every position of a short and of a full body line (and appended to them). Whatever is
